@@ -206,6 +206,7 @@ class ValueMapping:
 
         # Attributes for converting Values strings to binary values:
         self._v2b_dict = {}  # values: bin (int or tuple)
+        self._items_list = []  # list of tuple(bin (int or tuple), values)
 
     @classmethod
     def for_property(cls, server, namespace, classname, propname,
@@ -696,6 +697,7 @@ class ValueMapping:
             if valuemap_str == '..':
                 vm._b2v_unclaimed = values_str
                 vm._v2b_dict[values_str] = None
+                vm._items_list.append((None, values_str))
             else:
                 lo, hi, values_str = vm._values_tuple(
                     i, valuemap_list, values_list, cimtype)
@@ -703,10 +705,12 @@ class ValueMapping:
                     # single value
                     vm._b2v_single_dict[lo] = values_str
                     vm._v2b_dict[values_str] = lo
+                    vm._items_list.append((lo, values_str))
                 else:
                     # value range
                     vm._b2v_range_tuple_list.append((lo, hi, values_str))
                     vm._v2b_dict[values_str] = (lo, hi)
+                    vm._items_list.append(((lo, hi), values_str))
 
         return vm
 
@@ -997,6 +1001,6 @@ class ValueMapping:
           string.
         """
 
-        for values_str in self._v2b_dict:
-            element_value = self._v2b_dict[values_str]
-            yield element_value, values_str
+        # Note: _v2b_dict cannot be used for this because it has only one
+        # item for entries that have the same Values string.
+        yield from self._items_list
